@@ -337,6 +337,13 @@ def verify_target(db, reg, key, timeout_ms=20000, want_smt2=False, findings=(), 
             if verdict == 'sat':
                 o['verdict'] = 'sat'
                 o['where'] = vc.where
+                if model is not None and not o.get('prereplayed'):
+                    try:
+                        m2 = smt.polish(pc, vc.goal)
+                        if m2 is not None:
+                            model = m2
+                    except z3.Z3Exception:
+                        pass
                 if model is not None:
                     try:
                         o['model'] = concretize_inputs(model, vc.inputs, vc.snapshot)
